@@ -224,6 +224,9 @@ def check(db, rep):
 
     lexer_reset_rule(db, r1, r2, M)
 
+    r4 = rep.rule('r4', 'SELF-REFERENCE: an analyser whose implementation object points at a member of the analyser (the parser driver at the parser state) is never moved memberwise: a moved analyser would go on using the state of the object it was moved from', 1)
+    from rules.shared_selfref import selfref_rule
+    selfref_rule(db, r4, ['ccl::rslang::'])
     r3 = rep.rule('r3', 'STATICS: every mutable object with static storage is reset before each use by its single owner, never written after initialisation, or a listed process-wide singleton', 8)
     seen_owners = set()
     for s in db.statics:
